@@ -1,2 +1,3 @@
 pub mod handler;
 pub mod server;
+pub mod stream;
